@@ -54,6 +54,16 @@ fn initial_states() -> Vec<(&'static str, Vec<(&'static str, Option<Value>)>)> {
         ("x-function", vec![("x", None)]),
         ("min-variable", vec![("min", Some(n("4"))), ("y", Some(n("1.0")))]),
         ("x-list-y-bool", vec![("x", Some(Value::List(vec![n("1")]))), ("y", Some(Value::Bool(true)))]),
+        // a populated context: the names the statements use sit among 40 other bindings, all
+        // of which must stay exactly as they are
+        ("x-among-40-others", {
+            let mut v: Vec<(&'static str, Option<Value>)> = vec![("x", Some(n("5")))];
+            for i in 0..40 {
+                let name: &'static str = Box::leak(format!("w{:02}", i).into_boxed_str());
+                v.push((name, if i % 13 == 5 { None } else { Some(n(&format!("{}.{}", i, i % 7))) }));
+            }
+            v
+        }),
     ]
 }
 
